@@ -1,4 +1,165 @@
-import OdxVerif.Common.Sexp
-/-! driver stub for the variant family (to be written) -/
-open OdxVerif
-def main : IO Unit := driverMain fun _ => "(not-implemented)"
+import OdxVerif.Spec.Variant
+/-! line-protocol driver for the variant-identification model (property C14)
+
+    (run (strict t|f) (cache t|f) (cands <var>…) (ecu (p|f <req> <resp>)…) (script (auto) | (sess (ev <hex>)|skip …) …))
+      → (ok (sess (trace (p|f <req>)…) done|abandoned|err-odx|err-runtime|err-foreign)… (final (pending t|f)
+             (has_match t|f|err-runtime) (match none|<i>) (recent none|<hex>) (cache (p|f <req> <resp>)…)))
+    (spec (cands …) (ecu …)) → (spec (match none|<i>) (matches t|f …))
+    <var>  = (var ecu|base|other (pats (pat <mp>…)…) (svcs <svc>…))
+    <mp>   = (mp <exp> <svc> none|(some <snref>) none|(some <path>) plain|bnone|btrue|bfalse)
+    <svc>  = (svc <name> (ok <req>)|(err odx|foreign) (n <k>) (dec (<resp> <outcome>…)…))
+    <outcome> = (val <v>) | (decerr) | (raise odx|foreign)
+    <v>    = (s <hex>) (i <int>) (b t|f) (n) (y <hex>) (dtc <n>) (d (<key> <v>)…) (l <render> <v>…) (t <render> <v>…)
+    all texts and byte strings are hex atoms ("-" = empty) -/
+open OdxVerif OdxVerif.Variant
+
+def hexOf? (x : Sexp) : Option Bytes := x.asAtom?.bind bytesOfHex?
+
+partial def parseVal : Sexp → Option PVal
+  | .list [.atom "s", h] => (hexOf? h).map .str
+  | .list [.atom "i", n] => n.asInt?.map .int
+  | .list [.atom "b", .atom "t"] => some (.bool true)
+  | .list [.atom "b", .atom "f"] => some (.bool false)
+  | .list [.atom "n"] => some .none
+  | .list [.atom "y", h] => (hexOf? h).map .bytes
+  | .list [.atom "dtc", n] => n.asNat?.map .dtc
+  | .list (.atom "d" :: kvs) => do
+    let kv ← kvs.mapM fun
+      | .list [k, v] => do pure ((← hexOf? k), (← parseVal v))
+      | _ => none
+    pure (.dict kv)
+  | .list (.atom "l" :: r :: xs) => do pure (.list (← hexOf? r) (← xs.mapM parseVal))
+  | .list (.atom "t" :: r :: xs) => do pure (.tuple (← hexOf? r) (← xs.mapM parseVal))
+  | _ => none
+
+def parseOutcome : Sexp → Option DecOutcome
+  | .list [.atom "val", v] => (parseVal v).map .val
+  | .list [.atom "decerr"] => some .decodeError
+  | .list [.atom "raise", .atom "odx"] => some (.raises .odx)
+  | .list [.atom "raise", .atom "foreign"] => some (.raises .foreign)
+  | _ => none
+
+def parseOptStr : Sexp → Option (Option Str)
+  | .atom "none" => some none
+  | .list [.atom "some", h] => (hexOf? h).map some
+  | _ => none
+
+def parseMp : Sexp → Option MParam
+  | .list [.atom "mp", e, s, r, pth, ph] => do
+    let raw ← match ph with
+      | .atom "plain" => some none
+      | .atom "bnone" => some (some none)
+      | .atom "btrue" => some (some (some true))
+      | .atom "bfalse" => some (some (some false))
+      | _ => none
+    pure ⟨← hexOf? e, ← hexOf? s, ← parseOptStr r, ← parseOptStr pth, raw⟩
+  | _ => none
+
+def parseSvc : Sexp → Option Service
+  | .list [.atom "svc", name, req, .list [.atom "n", k], .list (.atom "dec" :: rows)] => do
+    let req : Except Err Bytes ← match req with
+      | .list [.atom "ok", h] => (hexOf? h).map .ok
+      | .list [.atom "err", .atom "odx"] => some (.error .odx)
+      | .list [.atom "err", .atom "foreign"] => some (.error .foreign)
+      | _ => none
+    let k ← k.asNat?
+    let table ← rows.mapM fun
+      | .list (h :: outs) => do pure ((← hexOf? h), (← outs.mapM parseOutcome))
+      | _ => none
+    pure ⟨← hexOf? name, req, fun r => (table.lookup r).getD (List.replicate k .decodeError)⟩
+  | _ => none
+
+def parseVar : Sexp → Option Variant
+  | .list [.atom "var", .atom kind, .list (.atom "pats" :: pats), .list (.atom "svcs" :: svcs)] => do
+    let pats ← pats.mapM fun
+      | .list (.atom "pat" :: mps) => mps.mapM parseMp
+      | _ => none
+    let svcs ← svcs.mapM parseSvc
+    let layer ← match kind, pats with
+      | "ecu", ps => some (Layer.ecu ps)
+      | "base", [] => some (Layer.base none)
+      | "base", [p] => some (Layer.base (some p))
+      | "other", _ => some Layer.other
+      | _, _ => none
+    pure ⟨layer, svcs⟩
+  | _ => none
+
+def parseBool : Sexp → Option Bool
+  | .atom "t" => some true
+  | .atom "f" => some false
+  | _ => none
+
+def parseEcu (rows : List Sexp) : Option (List (Req × Bytes)) :=
+  rows.mapM fun
+    | .list [.atom a, q, r] => do
+      let ph ← (if a == "p" then some true else if a == "f" then some false else none)
+      pure ((ph, ← hexOf? q), ← hexOf? r)
+    | _ => none
+
+inductive Sess where
+  | auto
+  | inputs (is : List (Option Bytes))
+
+def parseSess : Sexp → Option Sess
+  | .list [.atom "auto"] => some .auto
+  | .list (.atom "sess" :: is) => do
+    let is ← is.mapM fun
+      | .atom "skip" => some none
+      | .list [.atom "ev", h] => (hexOf? h).map some
+      | _ => none
+    pure (.inputs is)
+  | _ => none
+
+def reqStr (r : Req) : String := s!"({if r.1 then "p" else "f"} {hexAtom r.2})"
+
+def errStr : Err → String
+  | .odx => "err-odx"
+  | .runtime => "err-runtime"
+  | .foreign => "err-foreign"
+
+def runSessions (c : Config) (cands : List Variant) (ecu : Req → Bytes) : List Sess → MState → List String → List String × MState
+  | [], s, acc => (acc.reverse, s)
+  | .auto :: rest, s, acc =>
+    let x := (requestLoop c cands s).run ecu
+    let o := match x.result with | .ok _ => "done" | .error e => errStr e
+    runSessions c cands ecu rest x.final (s!"(sess (trace {" ".intercalate (x.trace.map reqStr)}) {o})" :: acc)
+  | .inputs is :: rest, s, acc =>
+    let x := (requestLoop c cands s).runScript is
+    let o := match x.result with | none => "abandoned" | some (.ok _) => "done" | some (.error e) => errStr e
+    runSessions c cands ecu rest x.final (s!"(sess (trace {" ".intercalate (x.trace.map reqStr)}) {o})" :: acc)
+
+def finalStr (s : MState) : String :=
+  let hm := match hasMatch s with | .ok true => "t" | .ok false => "f" | .error e => errStr e
+  let m := match s.matching with | none => "none" | some i => toString i
+  let cache := " ".intercalate (s.cache.map fun (k, v) => s!"({if k.1 then "p" else "f"} {hexAtom k.2} {hexAtom v})")
+  let recent := match s.recent with | none => "none" | some b => hexAtom b
+  s!"(final (pending {if s.state = .pending then "t" else "f"}) (has_match {hm}) (match {m}) (recent {recent}) (cache {cache}))"
+
+def handle (sx : Sexp) : String :=
+  match sx with
+  | .list (.atom "run" :: fields) =>
+    match Sexp.field1? fields "strict", Sexp.field1? fields "cache", Sexp.field? fields "cands",
+          Sexp.field? fields "ecu", Sexp.field? fields "script" with
+    | some st, some ca, some cands, some ecu, some script =>
+      match parseBool st, parseBool ca, cands.mapM parseVar, parseEcu ecu, script.mapM parseSess with
+      | some st, some ca, some cands, some tbl, some script =>
+        let ecuF : Req → Bytes := fun r => (tbl.lookup r).getD []
+        let (ss, fin) := runSessions ⟨st, ca⟩ cands ecuF script {} []
+        s!"(ok {" ".intercalate ss} {finalStr fin})"
+      | _, _, _, _, _ => "(bad-args)"
+    | _, _, _, _, _ => "(bad-args)"
+  | .list (.atom "spec" :: fields) =>
+    match Sexp.field? fields "cands", Sexp.field? fields "ecu" with
+    | some cands, some ecu =>
+      match cands.mapM parseVar, parseEcu ecu with
+      | some cands, some tbl =>
+        let ecuF : Req → Bytes := fun r => (tbl.lookup r).getD []
+        -- as in `C14_first_match_general`: a candidate that is no variant ends the list
+        let m := match Spec.identify ecuF (cands.takeWhile fun v => v.patterns?.isSome) with | none => "none" | some i => toString i
+        let ms := cands.map fun v => if Spec.variantMatches ecuF v then "t" else "f"
+        s!"(spec (match {m}) (matches {" ".intercalate ms}))"
+      | _, _ => "(bad-args)"
+    | _, _ => "(bad-args)"
+  | _ => "(bad-op)"
+
+def main : IO Unit := driverMain handle
